@@ -42,7 +42,7 @@ CHECKS = {
     "C06": ("part", "4 C06",
             "effect analysis (who-may-write) + pairing rules inside the track annotator + CFG dominance in the id issuer",
             "Decides cache ownership, write=>bookkeeping pairing on the same node collection, handler exhaustiveness, monotone maxima and "
-            "the reserve-then-draw discipline of new node ids, remove-before-add order of bookkeeping moves (old id == new id), the time ordering behind the neighbour query, that no entry is replaced wholesale, that no query picks list members by position, and that the track and lineage lookups are updated independently of each other. Does not decide that the lookup queries equal a scan of the graph. Also: memo discipline of the queries, key names threaded into the annotator, and the special keys of the feature dictionary survive dump_json/from_json (R06.15)."),
+            "the reserve-then-draw discipline of new node ids, remove-before-add order of bookkeeping moves (old id == new id), the time ordering behind the neighbour query, that no entry is replaced wholesale, that no query picks list members by position, and that the track and lineage lookups are updated independently of each other. Does not decide that the lookup queries equal a scan of the graph. Also: memo discipline of the queries, key names threaded into the annotator, and the special keys of the feature dictionary survive dump_json/from_json (R06.15). A lookup that is handed out is a plain dict: no defaultdict leaves its function (R06.16)."),
     "C07": ("part", "4 C07",
             "effect analysis for the single writer, who-may-call, argument provenance, path counting of the paint decomposition, guard shape",
             "Decides who writes the array with which value coupled to which node-set change, that a stroke decomposes into exactly one "
@@ -63,7 +63,7 @@ CHECKS = {
             "typestate (clean -> dirty) abstract interpretation over every path of user-action and primitive constructors with inlined callees",
             "Decides that no explicit raise/assert, opaque raising callee or modelled graph lookup on an unvalidated id is reachable after "
             "the first state change (with an inductive step over loops on caller-supplied lists), and that registration/notification come last. Seven families of genuine defects are listed as known "
-            "findings (13 keys). *Exceptions outside the modelled families are not decided. Also decides (effect analysis) that the queries an edit consults before it has validated write nothing (R11.4)."),
+            "findings (13 keys). *Exceptions outside the modelled families are not decided. Also decides (effect analysis) that the queries an edit consults before it has validated write nothing (R11.4). No auto-inserting map is handed out as a lookup (R11.5): a refused edit that only looked must not insert a key."),
     "C12": ("part", "4 C12",
             "CFG dominance and must-pass-through (validation before construction, uniqueness before renumbering, each structural validator), error-discipline check of validator verdicts, id-truthiness lint",
             "Decides the rejection half: malformed sources cannot reach construction, no validator verdict is dropped, renumbering uses one "
@@ -83,7 +83,7 @@ CHECKS = {
     "C16": ("whole*", "4 C16",
             "interprocedural write-effect analysis over access paths rooted at the tracks object (aliases, views, copies by depth)",
             "Decides that no read-only entry point (exporters, savers, ~50 query methods) can write storage reachable from the tracks object; "
-            "order-only writes only in the id->nodes lists. *Third-party callees are trusted by list."),
+            "order-only writes only in the id->nodes lists. *Third-party callees are trusted by list. No auto-inserting map is handed out as a lookup (R16.4): a read with a missing id must not write."),
     "C17": ("core", "4 C17",
             "linear-resource pairing of stores/removals with dominating-guard check; threading and order of the pipeline",
             "Decides consume<=>assign (including that every non-empty accumulator entry is flushed), no overwrite, threading and step order of the inference pipeline. Five genuine overwrite defects are "
